@@ -193,7 +193,11 @@ inductive Kind | streamable | sse | stdio
 inductive CState | disconnected | connected | initialized
   deriving Repr, DecidableEq
 
-/-- What the environment does during one `Initialize` call, by the stage at which the handshake breaks. -/
+/-- What the environment does during one `Initialize` call, by the stage at which the handshake breaks.
+    Malformed answers fall into these stages as the code sorts them (measured per client kind by the harness, see
+    `harness/cmd/lifecycle/malformed.go`): an answer with an `error` member of any type — also next to a `result` — and
+    one with neither member or a non-object result end the handshake like `rpcErr` / `badResult`; `result: null`, `{}`,
+    a result without / with an unsupported `protocolVersion` are accepted like `ok`. -/
 inductive InitEnv
   | ok          -- every stage succeeds
   | netErr      -- stage 1: the network fails every attempt of this call
@@ -201,6 +205,9 @@ inductive InitEnv
   | rpcErr      -- stage 2: the initialize request is answered with a JSON-RPC error
   | badResult   -- stage 3: the answer's result does not parse as an InitializeResult
   | dropNotif   -- stage 4: the `notifications/initialized` message cannot be delivered
+  | noAnswer    -- stage 1: the request is delivered but no usable answer comes back before the caller's deadline (silence,
+                -- an answer for another id, a notification instead, a line the transport cannot classify): nothing is
+                -- learnt from the peer, no session id either
   deriving Repr, DecidableEq
 
 /-- The request operations of the `Connector` interface. -/
@@ -291,7 +298,7 @@ def succeedInit (sm : ClientSM) (log : List Msg) : Out :=
 /-- `Initialize` past the already-initialized check, on a transport that accepted the request `pre ++ [initReq]`. -/
 def initStages (sm : ClientSM) (pre : List Msg) (e : InitEnv) (sess : Bool) : Out :=
   match e with
-  | .netErr | .http500 => failInit sm (pre ++ [.initReq])
+  | .netErr | .http500 | .noAnswer => failInit sm (pre ++ [.initReq])
   | .rpcErr | .badResult => failInit { sm with session := sm.session || sess } (pre ++ [.initReq])
   | .dropNotif => failInit { sm with session := sm.session || sess } (pre ++ [.initReq, .initNotif])
   | .ok => succeedInit { sm with session := sm.session || sess } (pre ++ [.initReq, .initNotif])
@@ -407,6 +414,16 @@ def specStates : CState → List (Op × Res) → List CState
 
 def results (tr : List (Res × CState × List Msg)) : List Res := tr.map (fun x => x.1)
 def states (tr : List (Res × CState × List Msg)) : List CState := tr.map (fun x => x.2.1)
+
+/-! ### how an answer is recognised as a refusal (stdio transport) -/
+
+/-- `parseJSONRPCMessageType` on a message that carries an `id`: the first link of the if / else-if chain whose member is
+    present decides the type; with no link matching the message is taken for a request.  The chain is regenerated
+    (`Mcp.Gen.messageTypeChain`). -/
+def classifyById (chain : List (Text × Text)) (members : List Text) : Text :=
+  match chain with
+  | [] => t!"JSONRPCMessageTypeRequest"
+  | (k, ty) :: rest => if k ∈ members then ty else classifyById rest members
 
 /-! ### regenerated facts about the client sources -/
 
